@@ -444,7 +444,19 @@ struct Ctx {
         const bool hung = w[k].hung != 0;
         const bool in_generator = w[k].in_case == 2;
         w[k].hung = 0;
-        if (!w[k].in_case) machinery_error("worker died outside any case: %s (%s)", how.c_str(), phase);
+        if (!w[k].in_case) {
+          // between two cases: the allocator noticed a corrupted heap (abort in free / malloc), or freed memory was still in use - the
+          // harness itself does not crash there on the unchanged tree, so a call of the library before this point wrote outside its
+          // buffers further than the guard zones reach.  Attributed to the last case this worker executed; the item is abandoned.
+          if (!WIFSIGNALED(st) || w[k].cur[0] == 0) machinery_error("worker died outside any case: %s (%s)", how.c_str(), phase);
+          int save = me; me = k;
+          violation(std::string(w[k].cur), "the worker process died between two cases, right after this one (" + how + "): heap corruption noticed by the allocator or a wild access - a call up to this point wrote outside its buffers beyond the guard zones");
+          me = save;
+          parent_restarts++;
+          if (parent_restarts > 400) { g->crash_cap_hit = 1; pid[k] = 0; alive--; continue; }
+          spawn(k, false);
+          continue;
+        }
         int save = me; me = k;
         violation(id, hung ? sfmt("the call did not return within %.0f s of CPU time (the case normally takes far less): non-termination", args.case_limit_s * (args.replaying() ? 1.5 : 1))
                            : in_generator ? "the library crashed while the harness was building the inputs of the next case of this group (the generators call the library on in-domain arguments): " + how
